@@ -7,7 +7,7 @@ LEVEL = "exploration"
 RULE = ("network R-p1-J1-p2-J2-p3-T (+ parallel p4 so that closing p2 isolates nothing) with a demand pattern, 8 h, hourly steps, "
         "carrying each ONE of the features {none, time control, off-grid time control, clock-time control with start_clocktime, "
         "tank-level control pair, pressure control, rule on time, rule on level with ELSE, rule on a junction pressure with ELSE, rule true only in an early window, "
-        "rule with a <= time bound, rules and level controls in a model with start_clocktime 3 h / 22 h, leak window spanning the pause, PDD, TCV with a setting control, 30-min hydraulic step, a second tank joined directly to the first, interpolated patterns with a 2 h pattern step, a dead end that is isolated / reconnected / isolated again, a dead end cut off by the simulator's own status logic (emptied tank; wrong-way check valve) and reconnected by a bypass}; "
+        "rule with a <= time bound, rules and level controls in a model with start_clocktime 3 h / 22 h, leak window spanning the pause, PDD, TCV with a setting control, 30-min hydraulic step, a second tank joined directly to the first, interpolated patterns with a 2 h pattern step, repeating simple time controls, a dead end that is isolated / reconnected / isolated again, a dead end cut off by the simulator's own status logic (emptied tank; wrong-way check valve) and reconnected by a bypass}; "
         "histories: EVERY subset of <= 1 (quick) / <= 3 (thorough) pause instants of the hourly grid x "
         "pickle round trip {no, after every pause} x {new simulator object per part}; thorough adds all pairs of features with "
         "every single pause and four double pauses, with and without pickling.  oracle: index of every continued part starts at the first hydraulic step after the pause, indices strictly "
@@ -93,6 +93,9 @@ def feature(s, f):
         s["links"].append(P("p5", "J3", "J2", cv=True))
         s["links"].append(P("p6", "J1", "J3", status="CLOSED"))
         c += [{"kind": "time", "t": 4 * H, "link": "p6", "value": "OPEN"}, {"kind": "time", "t": 6 * H, "link": "p6", "value": "CLOSED"}]
+    elif f == "time_repeat":
+        # API only: simple controls that repeat every 3 h of simulation time (close at 1 h, 4 h, 7 h; reopen at 2 h, 5 h, 8 h)
+        c += [{"kind": "time", "t": 1 * H, "link": "p2", "value": "CLOSED", "repeat": 3 * H}, {"kind": "time", "t": 2 * H, "link": "p2", "value": "OPEN", "repeat": 3 * H}]
     elif f == "interp2h":
         # demands interpolated between the multipliers of a 2 h pattern step: they change at EVERY hydraulic step
         o["interp"] = True; o["pat"] = 2 * H
@@ -108,7 +111,7 @@ def feature(s, f):
 
 FEATURES = ["none", "time", "time_offgrid", "clock", "level_pair", "pressure", "rule_time", "rule_level_else", "rule_early", "rule_le",
             "leak", "pdd", "tcv_setting", "hyd30", "reconnect", "rule_pressure", "tank_empties", "cv_deadend",
-            "rule_time+clock3", "rule_level_else+clock3", "rule_pressure+clock22", "level_pair+clock3", "rule_early+clock22", "tank_pair", "interp2h"]
+            "rule_time+clock3", "rule_level_else+clock3", "rule_pressure+clock22", "level_pair+clock3", "rule_early+clock22", "tank_pair", "interp2h", "time_repeat"]
 
 
 def cases(tier):
